@@ -343,6 +343,13 @@ def _replay(args):
     return ev
 
 
+def _corrupt(ev, rnd):
+    """binding control: one observed field of a replayed history changed"""
+    k = rnd.choice([3, 4, 8, 9])
+    ev[k] = "neq" if k == 9 else ev[k] + "#"
+    return ev
+
+
 def _parse_hists(out):
     hists = []
     buf = None
@@ -389,7 +396,7 @@ def run(chk):
            note="export with parent qualifiers mutates the interval's qualifier sets (code before fix 241fec7)")
     parts = pmap(_replay, jobs)
     evs = [e for p in parts for e in p]
-    chk.validate("C10Trace", evs, shard=1500, label="hist")
+    chk.validate("C10Trace", evs, shard=1500, label="hist", corrupt=_corrupt)
     chk.nontrivial = len({(e[1], tuple(e[2])) for e in evs})
     chk.extra["histories_emitted_by_tlc"] = total_emitted
     chk.extra["histories_replayed"] = len(evs)
